@@ -141,11 +141,19 @@ def run_case(case):
 
     def snapshot():
         it = [a.id for a in env]
+        listing = env.get_agents()
+        listed = [id(a) for a in listing]
+        # the caller does what it likes with the list it was handed (sorts it, pops from it): later listings must not notice
+        if len(listing) >= 2:
+            listing.reverse()
+        else:
+            listing.append("junk")
         snap = {
             "iter": it,
             "iter_objs": [id(a) for a in env],
             "len": len(env),
-            "get_agents": [id(a) for a in env.get_agents()],
+            "get_agents": listed,
+            "get_agents_again": [id(a) for a in env.get_agents()],
             "lookup": {i: id(env.get_agent(f"a{i}")) if env.get_agent(f"a{i}") is not None else None for i in range(NIDS)},
             "lookup_unknown": env.get_agent("zz"),
             "listings": {t.__name__: ([id(c) for c in model.systems[t]] if model.systems[t] is not None else None) for t in TYPES},
@@ -162,6 +170,7 @@ def run_case(case):
             "iter_objs": [id(a) for a in res],
             "len": len(res),
             "get_agents": [id(a) for a in res],
+            "get_agents_again": [id(a) for a in res],
             "lookup": {i: (id(resident[f"a{i}"]) if f"a{i}" in resident else None) for i in range(NIDS)},
             "lookup_unknown": None,
             "listings": {t.__name__: ([id(a[t]) for a in res if a[t] is not None] or None) for t in TYPES},
@@ -174,7 +183,7 @@ def run_case(case):
         got, exp = snapshot(), expected()
         for key in exp:
             if got[key] != exp[key]:
-                clause = {"iter": "iteration-order", "iter_objs": "iteration-order", "len": "length", "get_agents": "get-agents",
+                clause = {"iter": "iteration-order", "iter_objs": "iteration-order", "len": "length", "get_agents": "get-agents", "get_agents_again": "get-agents-after-the-caller-edited-an-earlier-result",
                           "lookup": "lookup", "lookup_unknown": "lookup", "listings": "component-listing",
                           "objects": "agent-components"}[key]
                 raise Violation(clause, f"{tag}: {key} is {_fmt(got[key])}, expected {_fmt(exp[key])} (residents {list(resident)})")
